@@ -11,6 +11,7 @@ import (
 	"strings"
 
 	cpucontrol "github.com/containers/nri-plugins/pkg/resmgr/control/cpu"
+	libmem "github.com/containers/nri-plugins/pkg/resmgr/lib/memory"
 	policyapi "github.com/containers/nri-plugins/pkg/resmgr/policy"
 	"github.com/containers/nri-plugins/pkg/utils/cpuset"
 )
@@ -74,9 +75,33 @@ func VerifSnapshot(b policyapi.Backend) []string {
 					hide = "T"
 				}
 			}
-			out = append(out, fmt.Sprintf("BC %s %s %d %s", id, verifWord(bln.Def.Name), bln.Instance, hide))
+			zone := "-"
+			if z, ok := p.memAllocator.AssignedZone(id); ok {
+				zone = strconv.FormatUint(uint64(z), 10)
+			}
+			pinMem := p.bpoptions.PinMemory == nil || *p.bpoptions.PinMemory
+			if bln.Def.PinMemory != nil {
+				pinMem = *bln.Def.PinMemory
+			}
+			pm := "F"
+			if pinMem {
+				pm = "T"
+			}
+			out = append(out, fmt.Sprintf("BC %s %s %d %s %s %s", id, verifWord(bln.Def.Name), bln.Instance, hide, zone, pm))
 		}
 	}
+	// every request the memory allocator holds
+	reqs := []string{}
+	p.memAllocator.ForeachRequest(nil, func(r *libmem.Request) bool {
+		reqs = append(reqs, r.ID())
+		return true
+	})
+	sort.Strings(reqs)
+	rl := "-"
+	if len(reqs) > 0 {
+		rl = strings.Join(reqs, ",")
+	}
+	out = append(out, "BM "+rl)
 	as := cpucontrol.VerifAssignments(p.cch)
 	classes := []string{}
 	for k := range as {
